@@ -299,10 +299,16 @@ fn spawn_async_ao_list_in_task<'a, SE: extensions::ShellExtensions>(
         }
     }
 
-    let join_handle = tokio::spawn(async move {
-        cloned_ao_list
-            .execute(&mut cloned_shell, &cloned_params)
-            .await
+    // N.B. Like pipeline stages, the list gets a thread of its own: its builtins read and write
+    // synchronously, so on a runtime worker it could keep a task it depends on (a nested
+    // background list, say) from ever running when workers are scarce.
+    let join_handle = tokio::task::spawn_blocking(move || {
+        let rt = tokio::runtime::Handle::current();
+        rt.block_on(async move {
+            cloned_ao_list
+                .execute(&mut cloned_shell, &cloned_params)
+                .await
+        })
     });
 
     shell.jobs_mut().add_as_current(jobs::Job::new(
